@@ -11,12 +11,12 @@ ASSUMPTIONS = [
     "as_string / num_bits_set fork once per bit (2^size paths) and are therefore limited to the small sizes listed in bounds",
 ]
 BOUNDS = {
-    "quick": "sizes 1..24 for set/clear/assign/get/isset/clear-all with symbolic index in [-size-2, 2*size+2] and symbolic value in [-1,2]; sizes 1..6 for as_string/num_bits_set; constructor argument checks concrete",
+    "quick": "sizes 1..24 for set/clear/assign/get/isset/clear-all with symbolic index in [-size-2, 2*size+2] and symbolic value in [-1,2]; sizes 1..6 for as_string/num_bits_set; constructor argument checks concrete; (H) histories of 2-3 operations (set/clear/assign/clear-all, symbolic indices and values) from the fresh object on sizes 1,2,3,5,8,9",
     "thorough": "sizes 1..48 for the one-step ops; sizes 1..10 for as_string/num_bits_set",
     "outside": "sizes above the listed ones (each size is one job; the byte/bit arithmetic is identical for larger sizes but not decided here)",
 }
 EXPECT_LABELS = {"quick": ["only-that-bit-changes", "read-last-written", "out-of-range-rejected", "bad-value-rejected",
-                           "padding-stays-zero", "popcount", "string", "fresh-all-zero", "ctor-rejects"]}
+                           "padding-stays-zero", "popcount", "string", "fresh-all-zero", "ctor-rejects", "history-popcount", "history-reads"]}
 
 
 def _state(ctx, b):
@@ -134,7 +134,40 @@ def fresh(ctx, cfg):
         ctx.check(ok, "ctor-rejects")
 
 
-HARNESS = {"c20.step": step, "c20.whole": whole, "c20.fresh": fresh}
+def history(ctx, cfg):
+    """(H) companion: an operation sequence from the fresh Bitarray through the public API only, against a ghost list of bits;
+    after the sequence every read (get / is_bit_set / num_bits_set / as_string) must agree with the list"""
+    size, ops = cfg["size"], cfg["ops"]
+    env.setup(ctx, "utilities")
+    from probables.utilities import Bitarray
+    b = Bitarray(size)
+    ghost = [False] * size
+    for s, op in enumerate(ops):
+        if op == "clear_all":
+            b.clear()
+            ghost = [False] * size
+            continue
+        idx = ctx.int(f"i{s}", 0, size - 1)
+        if op == "set":
+            b.set_bit(idx)
+            new = True
+        elif op == "clear":
+            b.clear_bit(idx)
+            new = False
+        else:
+            v = ctx.int(f"v{s}", 0, 1)
+            b[idx] = v
+            new = ctx.eq(v, 1)
+        ghost = [ctx.ite(ctx.eq(idx, j), new, g) for j, g in enumerate(ghost)]
+    n = b.num_bits_set()
+    ctx.check(ctx.eq(n, ctx.sum([ctx.ite(g, 1, 0) for g in ghost])), "history-popcount")
+    st = b.as_string()
+    ctx.check(len(st) == size and ctx.fork(ctx.and_([ctx.iff(g, ch == "1") for g, ch in zip(ghost, st)])), "history-string")
+    ctx.check(ctx.and_([ctx.iff(g, b[j] == 1) for j, g in enumerate(ghost)] + [ctx.iff(g, b.is_bit_set(j)) for j, g in enumerate(ghost)]), "history-reads")
+    ctx.check(ctx.and_([ctx.not_(q) for q in _state(ctx, b)[size:]]), "padding-stays-zero")
+
+
+HARNESS = {"c20.step": step, "c20.whole": whole, "c20.fresh": fresh, "c20.history": history}
 
 
 def jobs(tier):
@@ -145,6 +178,13 @@ def jobs(tier):
             js.append({"h": "c20.step", "cfg": {"size": s, "op": op}, "opts": {"cost": s}})
         js.append({"h": "c20.whole", "cfg": {"size": s, "op": "clear-all"}})
         js.append({"h": "c20.fresh", "cfg": {"size": s}, "opts": {"no_witness": True}})
+    import itertools
+    for s in (1, 2, 3, 5, 8, 9) if tier == "quick" else (1, 2, 3, 5, 7, 8, 9, 12, 16, 17):
+        for n in (2, 3):
+            for ops in itertools.product(("set", "clear", "assign", "clear_all"), repeat=n):
+                if ops[0] in ("clear", "clear_all") or (n == 3 and "clear_all" not in ops and tier == "quick" and s > 3):
+                    continue
+                js.append({"h": "c20.history", "cfg": {"size": s, "ops": list(ops)}, "opts": {"cost": s * n, "witnesses": 1}})
     for s in range(1, small + 1):
         for op in ("popcount", "string"):
             js.append({"h": "c20.whole", "cfg": {"size": s, "op": op}, "opts": {"cost": 2 ** s}})
